@@ -155,7 +155,7 @@ func builtinProcessors(c *core.Ctx) []*procInfo {
 						}
 					}
 					for _, g := range cands {
-						if g == nil || g.Blocks == nil || seen[g] || core.PkgOf(g) != core.PkgOf(props) {
+						if g == nil || g.Blocks == nil || seen[g] || !core.PartOf(core.PkgOf(g), core.PkgOf(props)) {
 							continue
 						}
 						if g.Signature.Recv() != nil && g.Object() != nil {
